@@ -282,6 +282,11 @@ func RunFragment(rng *lib.Rng, tier string, dir string, sum *lib.Summary) {
 		if seen[src] {
 			return
 		}
+		if origin != "gen" && (strings.Contains(src, "(nil!)") || strings.Contains(src, "panic(\"p\") ")) {
+			// a mutation produced an operand of type Never (`nil!`): the model's operators are not
+			// defined on Never operands - outside the fragment
+			return
+		}
 		seen[src] = true
 		main := p.Funs[0]
 		args := make([]cadence.Value, len(main.Params))
